@@ -2,7 +2,7 @@
    on the implementation's state dump after every step holds on the dump
    of every reachable state of the model.  The property theorems, and
    nothing else; proofs in Proofs2Monitor.v. *)
-From VF Require Import Nfs41.Spec Nfs41.Proofs2Monitor Nfs41.Proofs2Monitor2.
+From VF Require Import Nfs41.Spec Nfs41.Proofs2Monitor Nfs41.Proofs2Monitor2 Nfs41.Proofs2Monitor3.
 Local Open Scope string_scope.
 Open Scope N_scope.
 
@@ -48,3 +48,11 @@ Theorem monitor_locks_holds_on_model : forall cfg c0 evs,
   forall T, p_locks T (dump_of (reachable cfg c0 evs)) = "".
 Proof. exact Proofs2Monitor2.p_locks_reachable. Qed.
 Print Assumptions monitor_locks_holds_on_model.
+
+(* p_lease (C18:expired-client-retained, C18:idle-list, C18:orphan-session)
+   holds on the dump of every reachable state, with the lease time of the
+   configuration (no hypothesis). *)
+Theorem monitor_lease_holds_on_model : forall cfg c0 evs,
+  let st := reachable cfg c0 evs in p_lease (cf_lease (st_cfg st)) (dump_of st) = "".
+Proof. exact Proofs2Monitor3.p_lease_reachable. Qed.
+Print Assumptions monitor_lease_holds_on_model.
